@@ -6,6 +6,7 @@ package lrsclient
 // before / after the stats() call.  The driver only drives and records; LoadStoreTrace.tla judges.
 
 import (
+	"encoding/json"
 	"errors"
 	"fmt"
 	"math/rand"
@@ -308,4 +309,132 @@ func TestVerifC50Bulk(t *testing.T) {
 			"inprog_final": frep[0][3] + frep[1][3], "open_final": openFinal})
 	}
 	fmt.Printf("VERIF_SUMMARY {\"behaviours\":%d,\"events\":%d}\n", rounds, tr.N)
+}
+
+// c50SeqStep is one step of a sequential behaviour: start | finok | finerr | drop | load | snap.
+type c50SeqStep struct {
+	A   string `json:"a"`
+	Loc int    `json:"loc"`
+	Key int    `json:"key"`
+	Val int    `json:"val"`
+}
+
+// c50SeqRun executes one behaviour on a fresh store from a single goroutine and emits it as a
+// round.  With flush, every locality that was ever used gets one more CallStarted/CallFinished
+// before the final report, so that the final report covers it.
+func c50SeqRun(steps []c50SeqStep, id int, flush bool, tr *vlib.Trace) {
+	defer func() {
+		if x := recover(); x != nil {
+			tr.Emit(map[string]any{"ev": "panic", "what": fmt.Sprint(x)})
+		}
+	}()
+	ls := newLoadStore()
+	p := ls.ReporterForCluster("c", "s")
+	seq := 0
+	next := func() int { seq++; return seq }
+	ops := [][]int{}
+	reports := []map[string]any{}
+	used := [2]bool{}
+	call := func(kind, loc, key, val int) {
+		sb := next()
+		switch kind {
+		case 1:
+			p.CallStarted(c50Locs[loc])
+			used[loc] = true
+		case 2:
+			p.CallFinished(c50Locs[loc], nil)
+		case 3:
+			p.CallFinished(c50Locs[loc], c50Err)
+		case 4:
+			p.CallDropped(c50Cats[key])
+		case 5:
+			p.CallServerLoad(c50Locs[loc], c50Metrics[key], float64(val))
+		}
+		ops = append(ops, []int{kind, loc, key, val, sb, next()})
+	}
+	snap := func() {
+		a := next()
+		ds := ls.stats(nil)
+		reports = append(reports, c50Report(ds, int64(a), int64(next())))
+	}
+	for _, st := range steps {
+		switch st.A {
+		case "start":
+			call(1, st.Loc, 0, 0)
+		case "finok":
+			call(2, st.Loc, 0, 0)
+		case "finerr":
+			call(3, st.Loc, 0, 0)
+		case "drop":
+			call(4, 0, st.Key, 0)
+		case "load":
+			call(5, st.Loc, st.Key, st.Val)
+		case "snap":
+			snap()
+		}
+	}
+	if flush {
+		for loc := 0; loc < 2; loc++ {
+			if used[loc] {
+				call(1, loc, 0, 0)
+				call(2, loc, 0, 0)
+			}
+		}
+	}
+	snap()
+	tr.Emit(map[string]any{"ev": "round", "r": id, "flush": flush, "ops": ops, "reports": reports})
+}
+
+// TestVerifC50Seq replays sequential behaviours (TLC edge cover of LoadStoreSeqMC, then seeded
+// random ones over two localities, three drop categories and two metrics).
+func TestVerifC50Seq(t *testing.T) {
+	tr, err := vlib.NewTrace(os.Getenv("VERIF_OUT"))
+	if err != nil {
+		t.Fatal(err)
+	}
+	defer tr.Close()
+	flush := vlib.EnvInt("VERIF_FLUSH", 1) == 1
+	tr.Emit(map[string]any{"ev": "reset"})
+	n := 0
+	if path := os.Getenv("VERIF_BEHAVIOURS"); path != "" {
+		lines, err := vlib.ReadLines(path)
+		if err != nil {
+			t.Fatal(err)
+		}
+		for _, ln := range lines {
+			var steps []c50SeqStep
+			if err := json.Unmarshal(ln, &steps); err != nil {
+				t.Fatal(err)
+			}
+			c50SeqRun(steps, n, flush, tr)
+			n++
+		}
+	}
+	rng := rand.New(rand.NewSource(int64(vlib.EnvInt("VERIF_SEED", 1))*31337 + 5))
+	for r := 0; r < vlib.EnvInt("VERIF_N", 0); r++ {
+		var steps []c50SeqStep
+		open := [2]int{}
+		started := [2]bool{}
+		for k := 4 + rng.Intn(20); k > 0; k-- {
+			loc := rng.Intn(2)
+			switch x := rng.Intn(12); {
+			case x < 3:
+				steps = append(steps, c50SeqStep{A: "start", Loc: loc})
+				open[loc]++
+				started[loc] = true
+			case x < 5 && open[loc] > 0:
+				steps = append(steps, c50SeqStep{A: []string{"finok", "finerr"}[rng.Intn(2)], Loc: loc})
+				open[loc]--
+			case x < 7:
+				steps = append(steps, c50SeqStep{A: "drop", Key: rng.Intn(3)})
+			case x < 9 && started[loc]:
+				steps = append(steps, c50SeqStep{A: "load", Loc: loc, Key: rng.Intn(2), Val: 1 + rng.Intn(9)})
+			default:
+				steps = append(steps, c50SeqStep{A: "snap"})
+			}
+		}
+		c50SeqRun(steps, n, flush, tr)
+		n++
+	}
+	fmt.Printf("VERIF_SUMMARY {\"behaviours\":%d,\"events\":%d}\n", n, tr.N)
 }
